@@ -1,11 +1,15 @@
 #!/bin/sh
-# usage: try_mutant.sh <seed-id> <tier> <check ids...>   applies seeded/<id>/patch.diff to /repo, runs checks, reverts
+# usage: try_mutant.sh <seed-id> <tier> <check ids...>
+# Runs checks against a scratch copy of /repo with seeded/<id>/patch.diff applied (VERIF_REPO),
+# so /repo itself stays untouched; the copy is removed afterwards.
 ID=$1; TIER=$2; shift 2
+S=/tmp/mut_$ID
+rm -rf $S; mkdir -p $S
+git -C /repo archive HEAD | tar -x -C $S
+(cd $S && git init -q . && git apply /verif/seeded/$ID/patch.diff) || { echo "$ID: patch does not apply"; rm -rf $S; exit 2; }
 cd /verif
-git -C /repo diff --quiet || { echo "/repo not clean"; exit 2; }
-git -C /repo apply /verif/seeded/$ID/patch.diff || exit 2
-trap 'git -C /repo checkout -- .' EXIT INT TERM
 for c in "$@"; do
-  ./check $c --tier $TIER > /tmp/try_${ID}_$c.log 2>&1; rc=$?
-  echo "$ID $c rc=$rc  $(grep -c '^VIOLATION' /tmp/try_${ID}_$c.log) violation lines; $(grep -E '^(INCONCLUSIVE|KNOWN)' /tmp/try_${ID}_$c.log | head -2)"
+  VERIF_REPO=$S VERIF_EVIDENCE_DIR=/tmp/mut_ev_$ID ./check $c --tier $TIER > /tmp/try_${ID}_$c.log 2>&1; rc=$?
+  echo "$ID $c rc=$rc  $(grep -c '^VIOLATION' /tmp/try_${ID}_$c.log) violation lines; $(grep -E '^(INCONCLUSIVE|KNOWN)' /tmp/try_${ID}_$c.log | head -2 | cut -c1-300)"
 done
+rm -rf $S /tmp/mut_ev_$ID
